@@ -14,6 +14,10 @@ func SCore() *Supergraph {
 		{Name: "Mutation", Kind: "object", Fields: []Field{
 			{Name: "touch", Type: "Receipt", Args: []Arg{{Name: "id", Type: "ID!"}, {Name: "note", Type: "String"}}},
 		}},
+		{Name: "Subscription", Kind: "object", Fields: []Field{
+			{Name: "userUpdated", Type: "User"},
+			{Name: "reviewAdded", Type: "Review"},
+		}},
 		{Name: "User", Kind: "object", Keys: []Key{{Fields: "id"}}, Fields: []Field{
 			{Name: "id", Type: "ID!", Key: true},
 			{Name: "name", Type: "String!"},
@@ -87,6 +91,10 @@ func SCoreUniverse(s *Supergraph) *Universe {
 				"users":       []any{u1, u2, u3},
 				"user":        Fn(func(a map[string]any) any { return byID(a["id"]) }),
 				"topProducts": []any{p1, p2, nil},
+			},
+			"Subscription": {
+				"userUpdated": []any{u1, u3, nil, u2},
+				"reviewAdded": []any{r1, r3},
 			},
 			"Mutation": {
 				"touch": Fn(func(a map[string]any) any {
